@@ -60,7 +60,7 @@ CLAIMED = {
         technique="Lean 4: parking/mounting theorems (C06_park_order, C06_mount_exact under DistinctIds, C06_apply_items, D10 witness); differential fh-seq vs model; python spec oracle on properties/events of every record; known finding D10 replayed",
         text="Kernel-checked for every record list, parked map and string content: parking keeps per-target arrival order and does not disturb other targets; mounting gives each record exactly the items parked under its id, in order, after its own, removes them, and leaves other ids' items untouched (under DistinctIds); strings are only moved. C06_D10_witness shows the open finding. "
              "Tie: attachments through every route (creation, span handle from any thread, local parent), arbitrary UTF-8 keys/values/names, cycles between attachment and finish, both configurations.",
-        note="Open finding D10 (KNOWN_FINDINGS.txt): a span set delivered twice into one trace. Cross-thread attachments relied on the consistent cut: defects D4 (bd94330), D14 and D14b (e2fbc0a: without cancelable the record of a thread-safe span first seen in the second pass waits one cycle for attachments made before it finished), witnesses corpus/C06/D4-*, D14-*, D14b-*.txt.",
+        note="Open finding D10 (KNOWN_FINDINGS.txt): a span set delivered twice into one trace. Cross-thread attachments relied on the consistent cut: defects D4 (bd94330), D14 and D14b (e2fbc0a: without cancelable the record of a thread-safe span first seen in the second pass waits one cycle for attachments made before it finished), witnesses corpus/C06/D4-*, D14-*, D14b-*.txt. Open known finding D23 (nested local-parent scopes of one span deliver local-route attachments in scope-end order, not in attachment order; witness tools/props/c06.py:D23).",
         design="§4 C06"),
     "C07": dict(
         technique="Lean 4: assertion-validity theorems derived from the frame invariant (C07_local_drop_asserts, C07_scope_drop_asserts), totality/limit theorems for the repaired paths (D6, D7, D8), bounded send; implementation run under catch_unwind + deadline on wild call sequences incl. TLS-teardown calls, 4100 nested scopes, 10245 local spans, full ring",
@@ -171,7 +171,8 @@ def main():
 
 
 HOOK_COMMITS = ["64597a6 verif hooks: cfg(fastrace_verif) hook points in spsc and handle_commands, run_collector_cycle, collector_stats, touch_sender",
-                "3b742b8 verif hooks: Point::SecondPass in the second drain pass of handle_commands (cfg fastrace_verif)"]
+                "3b742b8 verif hooks: Point::SecondPass in the second drain pass of handle_commands (cfg fastrace_verif)",
+                "c35ac0e verif hooks: collector_stats reports the number of parked-cancel notes (cfg fastrace_verif)"]
 NA = {}
 
 if __name__ == "__main__":
